@@ -121,21 +121,31 @@ void ep2_norm_sim(ep2_t *r, const ep2_t *t, int n) {
 		for (i = 0; i < n; i++) {
 			fp2_null(a[i]);
 			fp2_new(a[i]);
-			fp2_copy(a[i], t[i]->z);
+			if (ep2_is_infty(t[i])) {
+				/* Keep the simultaneous inversion away from zero. */
+				fp2_set_dig(a[i], 1);
+			} else {
+				fp2_copy(a[i], t[i]->z);
+			}
 		}
 
 		fp2_inv_sim(a, (const fp2_t *)a, n);
 
 		for (i = 0; i < n; i++) {
-			fp2_copy(r[i]->x, t[i]->x);
-			fp2_copy(r[i]->y, t[i]->y);
-			if (!ep2_is_infty(t[i])) {
+			if (ep2_is_infty(t[i])) {
+				ep2_set_infty(r[i]);
+			} else {
+				fp2_copy(r[i]->x, t[i]->x);
+				fp2_copy(r[i]->y, t[i]->y);
 				fp2_copy(r[i]->z, a[i]);
+				r[i]->coord = t[i]->coord;
 			}
 		}
 #if EP_ADD == PROJC || EP_ADD == JACOB || !defined(STRIP)
 		for (i = 0; i < n; i++) {
-			ep2_norm_imp(r[i], r[i], 1);
+			if (!ep2_is_infty(r[i])) {
+				ep2_norm_imp(r[i], r[i], 1);
+			}
 		}
 #endif /* EP_ADD == PROJC */
 	}
